@@ -2,7 +2,7 @@
 (***************************************************************************)
 (* C05 monitor.  One trace per operation of a generated package (or per    *)
 (* bundled stream helper):                                                 *)
-(*   [id, served, others : Seq(status), c, sh, sib, desc - as Gen_Reply  *)
+(*   [id, served, others : Seq(status), c, sh, sib, ord, share - Gen_Reply*)
 (*    role : "primary" | "secondary" | "default" | "helper",               *)
 (*    via  : "method" | "helper:<function>",                               *)
 (*    ann  : Seq(kind) - what the REAL return annotation admits,           *)
@@ -33,12 +33,13 @@ Judge ==
          n    == Len(t.ev)
          ctx  == Ctx(t.role, t.c, t.sh, t.via)
          ann  == ToSet(t.ann)
-         sc   == [served |-> t.served, cell |-> [c |-> t.c, sh |-> t.sh], others |-> ToSet(t.others), sib |-> t.sib, desc |-> t.desc]
+         sc   == [served |-> t.served, cell |-> [c |-> t.c, sh |-> t.sh], others |-> ToSet(t.others), sib |-> t.sib, ord |-> t.ord, share |-> t.share]
          d    == Decl(sc)
          ds   == DocSeq(sc)
          B(i) == t.ev[i].body
          G(i) == Got(t.ev[i].got)
          isMethod == t.via = "method"
+         allowed == Bodies(t.c, t.sh, 2)
          FA   == [i \in 1..n |-> Failures(ctx, B(i), ann, G(i))]
          MO   == [i \in 1..n |-> IF isMethod THEN ModelOutcome("as_is", d, ds, t.sib, t.served, B(i)) ELSE G(i)]
          MF   == [i \in 1..n |-> IF isMethod THEN Failures(ctx, B(i), Ann("as_is", d, ds), MO[i]) ELSE {}]
@@ -50,7 +51,7 @@ Judge ==
      IN PrintT("VERDICT " \o ToJson([
             id          |-> t.id,
             wellformed  |-> (isMethod => (WellFormedScenario(sc) /\ t.role = RoleOf(d, ds, t.served)
-                                          /\ \A i \in 1..n : B(i) \in Bodies(t.c, t.sh, 2))),
+                                          /\ \A i \in 1..n : B(i) \in allowed)),
             fails       |-> AggAll(FA),
             model_fails |-> AggAll(MF),
             ann_drift   |-> (isMethod /\ ann # Ann("as_is", d, ds)),
